@@ -174,9 +174,13 @@ func TestC10WriteReplays(t *testing.T) {
 	if dir == "" {
 		t.Skip("tool")
 	}
-	for i := range findings {
-		f := &findings[i]
+	all := append(append([]finding(nil), findings...), regressions...)
+	for i := range all {
+		f := &all[i]
 		sc := fx.Script{Finding: f.id, What: "witness of " + f.id, Root: f.root}
+		if i >= len(findings) {
+			sc.Finding, sc.What = "", "regression witness (repaired in /repo): "+f.id
+		}
 		prog := f.witness
 		if f.after != "" {
 			prog = append(append([]string(nil), prog...), f.after)
